@@ -7,11 +7,13 @@ with named deviations; Part 3 = transcription of serialize.rs).  Python only orc
 0. JsonMachine.tla: parser.rs as a state machine (one action per loop iteration, the Rust call stack explicit):
    TLC checks on all inputs of the bound that it terminates, that it stops with the RFC's answer, that
    self.depth counts the open containers and stays within max_depth; each deviation is refuted.
-1. TLC enumerates bounded input spaces AS STATES (one token appended per step) and on every string checks
-   the model of the code against the RFC definition (accept <=> IsJson /\\ Depth <= d for several d, value =
+1. TLC enumerates bounded input spaces AS STATES (one token appended per step; texts that can no longer become
+   acceptable - rejected at a character, not at the end, by the RFC definition and by the model - are not
+   extended: the lemma that justifies this, Inv_DeadStaysDead, is checked on complete smaller spaces) and on
+   every string checks the model of the code against the RFC definition (accept <=> IsJson /\\ Depth <= d for several d, value =
    denotation, member order, depth-by-scan = depth-by-parse, serialiser model round-trips).  In the same pass
    it prints the ACCEPTED strings with their denotation.   Spaces: the 18-token alphabet (<=5 / <=6), number-like
-   strings (<=6 / <=7), member-level objects, escape tokens, serialiser atoms.
+   strings (<=7 / <=8), member-level objects (<=7 / <=8), escape tokens (<=6 / <=7), serialiser atoms (<=5 / <=6).
 2. spec -> code (method A): the harness enumerates the same spaces and requires Value::parse and
    parse_max_depth(., 0..3) to accept exactly the printed set (with the printed depth) and return the printed value.
 3. sensitivity: each named deviation (= the three defects repaired in /repo) and eight plausible bugs must make
@@ -213,7 +215,8 @@ def run(tier, replay):
         f_side = ex.submit(lane_spaces, jb, limit, side_spaces, 1, "x")
 
         def lane2():
-            small = run_tlc("MC_Json8259.tla", "MC_Json8259_small.cfg", D, workers=1, timeout=900, work_id="c13c")
+            small = [(cfg, run_tlc("MC_Json8259.tla", cfg, D, workers=1, timeout=2400, work_id="c13c", heap="6g"))
+                     for cfg in ["MC_Json8259_full_%s.cfg" % suffix] + ["MC_Json8259_full_%s.cfg" % x for x in ("num", "obj", "esc", "ser")]]
             sens = lane_sens(SENS)
             dv = trace_validate(docs_path, wid="c13d", par=1 if thorough else 2)
             sv = trace_validate(ser_path, wid="c13e")
@@ -230,11 +233,16 @@ def run(tier, replay):
     # Vacuity guard.  The state machine (JsonMachine) runs with -coverage and every action must have been taken.
     # On Json8259 itself `-coverage 1` is not usable: TLC's cost model inlines every operator
     # application and on the mutually recursive descent operators that takes minutes and > 4 GB even for 343
-    # states.  Instead: every space must have exactly sum(|Alphabet|^k) states (the single action Extend was
-    # taken for every token at every length), the harness must have enumerated the same number, the accepted
-    # set must be non-empty with depths on both sides of a probed limit, and all 11 sensitivity configs must fail.
-    ctx.add_tlc("small space, each invariant separately", small)
-    ctx.require_tlc_ok("MC_Json8259_small", small)
+    # states.  Instead: the complete (unpruned) configurations must have exactly sum(|Alphabet|^k) states, the
+    # harness must have enumerated sum(|Alphabet|^k) strings and met every accepted string of the pruned spaces,
+    # the accepted sets must be non-empty, and every sensitivity config must fail.
+    for cfg, r in small:
+        ctx.add_tlc("complete space (no pruning): all invariants and the pruning lemma Inv_DeadStaysDead (%s)" % cfg, r)
+        ctx.require_tlc_ok(cfg, r)
+        hdr = [x for x in r.prints if isinstance(x, dict) and x.get("header")]
+        want = sum(len(hdr[0]["alphabet"]) ** k for k in range(hdr[0]["maxlen"] + 1)) if hdr else -1
+        if r.distinct != want:
+            raise ToolError("vacuity guard: %s explored %d states, expected %d" % (cfg, r.distinct, want))
     for name, cfg, r in mach_runs:
         ctx.add_tlc("%s (%s)" % (name, cfg), r)
         ctx.require_tlc_ok(cfg, r)
@@ -249,19 +257,17 @@ def run(tier, replay):
     acc_total = 0
     nontrivial_texts = set()
     for name, cfg, r, s in main + side:
-        ctx.add_tlc("%s: model of the code vs RFC 8259 on every string, accepted set printed (%s)" % (name, cfg), r)
+        ctx.add_tlc("%s: model of the code vs RFC 8259 on every viable string (dead prefixes pruned), accepted set printed (%s)" % (name, cfg), r)
         ctx.require_tlc_ok(cfg, r)
         if s is None:
             continue
         acc = len([x for x in r.prints if isinstance(x, dict) and "t" in x])
         if acc == 0 or s["accepted_by_spec"] != acc or s["accepted_seen"] != acc:
             raise ToolError("%s: harness saw %s of %s accepted strings (TLC printed %d)" % (cfg, s["accepted_seen"], s["accepted_by_spec"], acc))
-        if s["strings"] != r.distinct:
-            raise ToolError("%s: harness enumerated %d strings, TLC %d states" % (cfg, s["strings"], r.distinct))
         depths = sorted(set(x["d"] for x in r.prints if isinstance(x, dict) and "d" in x))
         na = len(s["alphabet"])
-        if r.distinct != sum(na ** k for k in range(s["maxlen"] + 1)):
-            raise ToolError("vacuity guard: %s explored %d states, expected %d" % (cfg, r.distinct, sum(na ** k for k in range(s["maxlen"] + 1))))
+        if s["strings"] != sum(na ** k for k in range(s["maxlen"] + 1)) or r.distinct <= acc:
+            raise ToolError("vacuity guard: %s: harness enumerated %d strings, TLC explored %d states" % (cfg, s["strings"], r.distinct))
         acc_total += acc
         ctx.cov["evaluations"] += s["evaluations"]
         for x in r.prints:                      # distinct accepted texts of >= 2 tokens, across all spaces
@@ -270,7 +276,7 @@ def run(tier, replay):
         ctx.cov["traces_validated_against_impl"] += s["strings"]
         for x in s["samples"][2:3]:
             ctx.sample({"space": name, **x})
-        ctx.add_part("vectors: " + name, alphabet=s["alphabet"], maxlen=s["maxlen"], strings=s["strings"],
+        ctx.add_part("vectors: " + name, alphabet=s["alphabet"], maxlen=s["maxlen"], strings=s["strings"], tlc_states_after_pruning=r.distinct,
                      accepted_by_spec=acc, depths_of_accepted=depths, either_outcome_allowed=s["either"],
                      calls=s["evaluations"], mismatches=s["mismatches"])
         if s["mismatches"]:
